@@ -870,6 +870,21 @@ def round20_entries():
                 ["!4 = !DIExpression()", "expr: !4)"]))
     return out
 
+def round21_entries():
+    """closing the misses of seed round 21: the text `...` INSIDE an argument list that is not the forwarded-arguments marker of a musttail call — the ellipsis of
+    a variadic function TYPE (of an argument, inside a constant expression, of the callee) and the bytes of a metadata string"""
+    out = []
+    P = "declare i32 @printf(i8*, ...)\n\ndeclare void @reg(i32 (i8*, ...)*)\n\ndeclare void @reg2(i8*, i32)\n\ndeclare void @md(metadata)\n\n"
+    out.append(("call.arg-variadic-funcptr", P + "define void @f() {\n\tcall void @reg(i32 (i8*, ...)* @printf)\n\tret void\n}\n", ["call void @reg(i32 (i8*, ...)* @printf)"]))
+    out.append(("call.arg-variadic-funcptr-in-cast", P + "define void @f() {\n\tcall void @reg2(i8* bitcast (i32 (i8*, ...)* @printf to i8*), i32 7)\n\tret void\n}\n",
+                ["call void @reg2(i8* bitcast (i32 (i8*, ...)* @printf to i8*), i32 7)"]))
+    out.append(("call.arg-metadata-string-with-dots", P + 'define void @f() {\n\tcall void @md(metadata !"a, ...")\n\tret void\n}\n', ['call void @md(metadata !"a, ...")']))
+    out.append(("call.arg-variadic-funcptr-tail", P + "define void @f() {\n\ttail call void @reg(i32 (i8*, ...)* @printf)\n\t%r = call i32 (i8*, ...) @printf(i8* null, i32 (i8*, ...)* @printf)\n\tret void\n}\n",
+                ["tail call void @reg(i32 (i8*, ...)* @printf)", "%r = call i32 (i8*, ...) @printf(i8* null, i32 (i8*, ...)* @printf)"]))
+    out.append(("invoke.arg-variadic-funcptr", P + "declare i32 @pers(...)\n\ndefine void @f() personality i32 (...)* @pers {\n\tinvoke void @reg(i32 (i8*, ...)* @printf)\n\t\tto label %ok unwind label %bad\n\nok:\n\tret void\n\nbad:\n\t%lp = landingpad { i8*, i32 }\n\t\tcleanup\n\tret void\n}\n",
+                ["invoke void @reg(i32 (i8*, ...)* @printf)"]))
+    return out
+
 def bare_digit_identifiers():
     """identifiers made of digits at the boundaries of the ID range, written BARE (2^63 - 1 is the largest ID llir reads; from 2^63 on it reads the digits as a NAME; LLVM
     reads every bare digit identifier as an ID, so these are no LLVM inputs: C02 only — whatever the parser accepts is printed as a one-step fixpoint)"""
@@ -989,4 +1004,4 @@ def layout_entries():
 
 
 def all_entries(rows):
-    return kw_entries(rows) + STRUCTURED + NAMED_NONSTRUCT + inst_entries() + DI + MISC + comdat_entries() + flag_cross_entries() + addrspace_cross_entries() + written_type_entries() + REPEATS + UINT_LITS + order_entries() + DI_REFS + clausegen.all_entries() + layout_entries() + round13_entries() + round14_entries() + round15_entries() + round16_entries() + round17_entries() + round18_entries() + round20_entries()
+    return kw_entries(rows) + STRUCTURED + NAMED_NONSTRUCT + inst_entries() + DI + MISC + comdat_entries() + flag_cross_entries() + addrspace_cross_entries() + written_type_entries() + REPEATS + UINT_LITS + order_entries() + DI_REFS + clausegen.all_entries() + layout_entries() + round13_entries() + round14_entries() + round15_entries() + round16_entries() + round17_entries() + round18_entries() + round20_entries() + round21_entries()
